@@ -413,6 +413,221 @@ theorem holdsSched_model_partial (h0 start : Nat) (s : Spec) (rest : List Spec) 
   | errInitiate => simp
   | errNext => simp
 
+/-! ## messages: who is handed what -/
+
+/-- messages handed to `Receive`, in state order -/
+def handed (c : Cfg) : List Nat := ((c.done ++ [c.crec]).map (·.msgs)).flatten
+
+/-- what the stage functions keep: ended records, dropped, and handed ++ buffered -/
+def Keeps (c c' : Cfg) : Prop :=
+  c'.done = c.done ∧ c'.dropped = c.dropped ∧ handed c' ++ c'.buf = handed c ++ c.buf ∧
+  c'.k = c.k ∧ c'.height = c.height
+
+theorem loopStage_keeps (c : Cfg) (w : Nat) : Keeps c (loopStage c w).cfg := by
+  unfold loopStage Keeps handed
+  simp only
+  split <;> simp [Out.cfg]
+
+theorem afterInit_keeps (c : Cfg) (t : Nat) : Keeps c (afterInit c t).cfg := by
+  unfold afterInit
+  split
+  · simp [Keeps, Out.cfg, handed]
+  · exact loopStage_keeps _ _
+
+theorem initStage_keeps (c : Cfg) (t : Nat) : Keeps c (initStage c t).cfg := by
+  unfold initStage
+  simp only
+  split
+  · simp [Keeps, Out.cfg, handed]
+  · have := afterInit_keeps { c with crec := { c.crec with initH := some c.height } } t
+    simpa [Keeps, handed] using this
+
+theorem delayStage_keeps (c : Cfg) (e : Nat) : Keeps c (delayStage c e).cfg := by
+  unfold delayStage
+  simp only
+  split
+  · have := initStage_keeps { c with calls := c.calls ++ [.wait (e + c.cur.delay)],
+                                      crec := { c.crec with thr := some (e + c.cur.delay) } } (e + c.cur.delay)
+    simpa [Keeps, handed] using this
+  · simp [Keeps, Out.cfg, handed]
+
+/-- what a whole settle keeps: ended records only grow, dropped and handed ++ buffered stay -/
+def Grows (c c' : Cfg) : Prop :=
+  c.done <+: c'.done ∧ c'.dropped = c.dropped ∧ handed c' ++ c'.buf = handed c ++ c.buf
+
+theorem Keeps.grows {c c' : Cfg} (h : Keeps c c') : Grows c c' :=
+  ⟨by rw [h.1]; exact List.prefix_refl _, h.2.1, h.2.2.1⟩
+
+theorem Grows.trans {a b c : Cfg} (h1 : Grows a b) (h2 : Grows b c) : Grows a c :=
+  ⟨h1.1.trans h2.1, by rw [h2.2.1, h1.2.1], by rw [h2.2.2, h1.2.2]⟩
+
+theorem chain_grows (rest : List Spec) (o : Out) : Grows o.cfg (chain rest o) := by
+  induction rest generalizing o with
+  | nil =>
+    cases o with
+    | quiet c => simp [chain, Out.cfg, Grows]
+    | fired c w => simp only [chain, Out.cfg]; split <;> simp [Grows, handed]
+  | cons s rest' ih =>
+    cases o with
+    | quiet c => simp [chain, Out.cfg, Grows]
+    | fired c w =>
+      simp only [chain, Out.cfg]
+      split
+      · simp [Grows, handed]
+      · refine Grows.trans ?_ (ih _)
+        refine Grows.trans ?_ (delayStage_keeps _ _).grows
+        simp [Grows, handed]
+
+theorem settle_grows (c : Cfg) : Grows c (settle c) := by
+  unfold settle
+  split
+  · split
+    · exact (delayStage_keeps c _).grows.trans (chain_grows _ _)
+    · simp [Grows]
+  · split
+    · exact (initStage_keeps c _).grows.trans (chain_grows _ _)
+    · simp [Grows]
+  · simp [Grows]
+  · exact (loopStage_keeps c _).grows.trans (chain_grows _ _)
+  · simp [Grows]
+
+
+theorem step_done_prefix (c : Cfg) (e : Ev) : c.done <+: (step c e).done := by
+  cases e with
+  | block h => exact (settle_grows { c with height := max c.height h }).1
+  | msg id =>
+    simp only [step]
+    split
+    · exact List.prefix_refl _
+    · exact (settle_grows { c with buf := c.buf ++ [id] }).1
+  | release =>
+    simp only [step]
+    split
+    · exact ((afterInit_keeps c _).grows.trans (chain_grows _ _)).1
+    · exact List.prefix_refl _
+
+/-- **receive_only_current**: `Receive` is invoked on a state only while it is the current one.
+    Once a state has ended (its record has moved to `done`), no later event — block, message or
+    `Initiate` return — hands it another message or changes what it was handed: the records of
+    ended states after any event list are a prefix of those after any continuation. (Messages
+    are appended to the current record only, in `loopStage`, i.e. after its `Initiate` returned
+    and before its end-block waiter was taken.) -/
+theorem receive_only_current (h0 start : Nat) (s : Spec) (rest : List Spec) (evs more : List Ev) :
+    (exec h0 start s rest evs).done <+: (exec h0 start s rest (evs ++ more)).done := by
+  unfold exec
+  rw [List.foldl_append]
+  generalize List.foldl step (init h0 start s rest) evs = c
+  induction more generalizing c with
+  | nil => exact List.prefix_refl _
+  | cons e r ih => exact (step_done_prefix c e).trans (ih _)
+
+/-- a message delivered while state k sits in its `select` loop before its end block is handed
+    to state k, immediately. -/
+theorem msg_to_current (c : Cfg) (w id : Nat) (hp : c.phase = .loop w) (hw : c.height < w)
+    (hb : c.buf = []) :
+    (step c (.msg id)).crec.msgs = c.crec.msgs ++ [id] ∧ (step c (.msg id)).k = c.k ∧
+    (step c (.msg id)).done = c.done ∧ (step c (.msg id)).buf = [] := by
+  have hnw : ¬ (c.height ≥ w) := by omega
+  simp [step, hp, settle, loopStage, hnw, chain, hb]
+
+theorem delivered_append (a b : List Ev) : delivered (a ++ b) = delivered a ++ delivered b := by
+  induction a with
+  | nil => rfl
+  | cons x r ih => cases x <;> simp [delivered, ih]
+
+/-- receive-path invariant of the sync machine -/
+def Conserved (c : Cfg) (d : List Nat) : Prop :=
+  d = handed c ++ c.buf ++ c.dropped ∧ (c.phase ≠ .finished → c.dropped = [])
+
+theorem grows_conserved {c c' : Cfg} {d : List Nat} (g : Grows c c')
+    (h : d = handed c ++ c.buf ++ c.dropped) (hd : c.dropped = []) :
+    Conserved c' d := by
+  refine ⟨?_, fun _ => by rw [g.2.1, hd]⟩
+  rw [g.2.2, g.2.1]; exact h
+
+theorem step_conserved (c : Cfg) (e : Ev) (d : List Nat) (h : Conserved c d) :
+    Conserved (step c e) (d ++ delivered [e]) := by
+  obtain ⟨hd, hf⟩ := h
+  by_cases hfin : c.phase = .finished
+  · cases e with
+    | block hb => simpa [step, settle, hfin, delivered, Conserved, handed] using hd
+    | msg id => simp [step, hfin, delivered, Conserved, handed, hd]
+    | release => simpa [step, hfin, delivered, Conserved, handed] using hd
+  · have hdr := hf hfin
+    cases e with
+    | block hb =>
+      simp only [delivered, List.append_nil]
+      exact grows_conserved (settle_grows { c with height := max c.height hb })
+        (by simpa [handed] using hd) hdr
+    | msg id =>
+      simp only [step, delivered]
+      exact grows_conserved (settle_grows { c with buf := c.buf ++ [id] })
+          (by simp [handed, hd, hdr] ) hdr
+    | release =>
+      simp only [step, delivered, List.append_nil]
+      split
+      · exact grows_conserved ((afterInit_keeps c _).grows.trans (chain_grows _ _)) hd hdr
+      · exact ⟨hd, hf⟩
+
+theorem init_conserved (h0 start : Nat) (s : Spec) (rest : List Spec) :
+    Conserved (init h0 start s rest) [] := by
+  unfold init
+  exact grows_conserved (settle_grows _) (by simp [handed]) rfl
+
+theorem exec_conserved (h0 start : Nat) (s : Spec) (rest : List Spec) (evs : List Ev) :
+    Conserved (exec h0 start s rest evs) (delivered evs) := by
+  unfold exec
+  have h := init_conserved h0 start s rest
+  generalize init h0 start s rest = c at h
+  have key : ∀ (evs : List Ev) (c : Cfg) (d : List Nat), Conserved c d →
+      Conserved (evs.foldl step c) (d ++ delivered evs) := by
+    intro evs
+    induction evs with
+    | nil => intro c d h; simpa [delivered] using h
+    | cons e r ih =>
+      intro c d h
+      have := ih _ _ (step_conserved c e d h)
+      rw [show e :: r = [e] ++ r from rfl, delivered_append, ← List.append_assoc]
+      exact this
+  simpa using key evs c [] h
+
+theorem drain_conserved (n : Nat) (c : Cfg) (d : List Nat) (h : Conserved c d) :
+    Conserved (drain n c) d := by
+  induction n generalizing c with
+  | zero => exact h
+  | succ n ih =>
+    apply ih
+    unfold drainStep
+    split
+    · exact h
+    · simpa [delivered] using step_conserved c .release d h
+    · rename_i x _; simpa [delivered] using step_conserved c (.block x) d h
+    · rename_i x _; simpa [delivered] using step_conserved c (.block x) d h
+    · rename_i x _; simpa [delivered] using step_conserved c (.block x) d h
+
+/-- **messages_conserved**: for every event list, chain and timing, the sequence of messages
+    delivered to the channel equals, in order: the messages handed to the states (in state
+    order), then the messages still in `recvChan`, then the messages that arrived after the
+    machine had returned. None is lost, duplicated, reordered or invented. -/
+theorem messages_conserved (h0 start : Nat) (s : Spec) (rest : List Spec) (evs : List Ev) :
+    delivered evs = handed (run h0 start s rest evs) ++ (run h0 start s rest evs).buf
+      ++ (run h0 start s rest evs).dropped :=
+  (drain_conserved _ _ _ (exec_conserved h0 start s rest evs)).1
+
+/-- monitor tie, message part: `holdsMsgs` accepts every run of the model. -/
+theorem holdsMsgs_model (h0 start : Nat) (s : Spec) (rest : List Spec) (evs : List Ev) :
+    holdsMsgs (delivered evs) (handed (run h0 start s rest evs))
+      (run h0 start s rest evs).buf.length (run h0 start s rest evs).dropped = true := by
+  have h := messages_conserved h0 start s rest evs
+  generalize handed (run h0 start s rest evs) = a at h
+  generalize (run h0 start s rest evs).buf = b at h
+  generalize (run h0 start s rest evs).dropped = c at h
+  unfold holdsMsgs
+  rw [h]
+  simp [List.drop_append, List.take_append]
+  omega
+
+
 /-- non-vacuity: a run with a late block jump and a silent state ends normally at `start + total`
     (by `simp` unfolding; no kernel evaluation of the run). -/
 example : (run 0 2 { delay := 1, active := 2 } [{ delay := 0, active := 0 }] [.block 9]).res
